@@ -1091,6 +1091,10 @@ package channel
 //@     invariant forall k int :: 0 <= k && k < len(x.Assets) ==> a.Backends[k] == x.Backends[k] && a.Assets[k] != nil && unmarshalledFrom(a.Assets[k]) == marshalOf(x.Assets[k])
 //@     invariant balEq(a.Balances, x.Balances)
 //@     invariant forall l int :: 0 <= l && l < $i ==> subEq(a.Locked[l], x.Locked[l])
+// (the pieces of validAlloc(*a) the final Valid() call needs, in the form it states them)
+//@     invariant len(a.Balances) == len(a.Assets) && len(a.Balances[0]) > 0 && len(a.Balances[0]) <= MaxNumParts && len(a.Assets) > 0 && len(a.Assets) <= MaxNumAssets && len(a.Locked) <= MaxNumSubAllocations
+//@     invariant (forall i int :: 0 <= i && i < len(a.Balances) ==> len(a.Balances[i]) == len(a.Balances[0])) && (forall i int :: 0 <= i && i < len(a.Balances) ==> nonNeg(a.Balances[i]))
+//@     invariant forall l int :: 0 <= l && l < $i ==> len(a.Locked[l].Bals) == len(a.Assets) && nonNeg(a.Locked[l].Bals)
 
 // States: ID, version, the allocation (summary token: lemma verifRoundTripAllocation), the final flag, then the optional app
 // (a flag and, unless it is the NoApp, the marshalled app identifier) and the marshalled data. The decoder resolves the app
